@@ -157,6 +157,8 @@ def menu(t, level, subset_level=None):
     all_len = all(x._edge.length is not None for x in order[1:])
     ops = []
     add = ops.append
+    if level < 0:
+        return _mini_menu(order, n, leaves, internal, nonroot, labels, distinct, all_len)
     for i in range(n):
         for o in _opt(level, ["upd", "sup", "col"]):
             add(dict(op="reseed_at", t=i, **o))
@@ -179,9 +181,9 @@ def menu(t, level, subset_level=None):
     subsets = []
     if labels:
         maxr = len(labels) - 1
-        sizes = range(1, maxr + 1) if subset_level >= 2 else ([1] if subset_level == 0 else sorted(set([1, maxr]) - set([0])))
+        sizes = range(1, maxr + 1) if subset_level >= 2 else ([1] if subset_level <= 0 else sorted(set([1, maxr])))
         for r in sizes:
-            if r >= 1:
+            if 1 <= r <= maxr:
                 for c in itertools.combinations(labels, r):
                     subsets.append(list(c))
     for sub in subsets:
@@ -246,9 +248,11 @@ def menu(t, level, subset_level=None):
     add(dict(op="update_bipartitions"))
     # children
     for i in range(n):
+        k = len(order[i]._child_nodes)
+        if k == 0 and order[i].taxon is not None:
+            continue  # a child under a taxon-bearing leaf would make an internal node with a taxon (outside the property)
         add(dict(op="add_child", t=i))
         add(dict(op="new_child", t=i))
-        k = len(order[i]._child_nodes)
         for idx in sorted(set([0, 1, k])) if level else (0,):
             if idx <= k:
                 add(dict(op="insert_child", t=i, idx=idx))
@@ -265,12 +269,52 @@ def menu(t, level, subset_level=None):
         add(dict(op="remove_nonchild", t=0, c=0))
     for i in nonroot:
         sub = set(id(x) for x in S.pre(order[i]))
-        cands = [j for j in range(n) if id(order[j]) not in sub and order[j] is not order[i]._parent_node]
+        cands = [j for j in range(n) if id(order[j]) not in sub and order[j] is not order[i]._parent_node
+                 and (order[j]._child_nodes or order[j].taxon is None)]
         for j in (cands if level >= 2 else cands[:1]):
             add(dict(op="set_parent", t=i, p=j))
     for i in internal[1:]:
         if level:
             add(dict(op="set_seed_node", t=i))
+    return ops
+
+
+def _mini_menu(order, n, leaves, internal, nonroot, labels, distinct, all_len):
+    """one representative per family of operations, default options, every target"""
+    ops = []
+    add = ops.append
+    for i in range(n):
+        add(dict(op="reseed_at", t=i, upd=False, sup=True, col=True))
+        add(dict(op="edge_collapse", t=i, adj=False))
+        if i == 0 or _survivors(order, [order[i]]):
+            add(dict(op="prune_subtree", t=i, upd=False, sup=True))
+    for i in nonroot:
+        add(dict(op="reroot_at_edge", t=i, l="half", upd=False, sup=True))
+        if len(order[i]._child_nodes) != 1:
+            add(dict(op="to_outgroup_position", t=i, upd=False, sup=True))
+        if _survivors(order, [order[i]]):
+            add(dict(op="remove_child", t=i, sup=False))
+    if len(leaves) >= 2 and all_len and distinct:
+        add(dict(op="reroot_at_midpoint", upd=False, sup=True, col=True))
+    if len(labels) >= 2:
+        for l in labels:
+            add(dict(op="prune_taxa", s=[l], upd=True, sup=True))
+            add(dict(op="filter_leaf_nodes", s=[l], upd=False, sup=False, rec=True))
+    for i in internal:
+        add(dict(op="collapse_clade", t=i))
+        add(dict(op="add_child", t=i))
+    add(dict(op="collapse_basal_bifurcation", unr=True))
+    add(dict(op="resolve_polytomies", limit=2, seed=None, upd=False))
+    add(dict(op="suppress_unifurcations", upd=True))
+    add(dict(op="encode_bipartitions", sup=True, col=True))
+    add(dict(op="shuffle_taxa", seed=4, inc=False))
+    add(dict(op="ladderize", asc=True))
+    for i in nonroot:
+        sub = set(id(x) for x in S.pre(order[i]))
+        cands = [j for j in range(n) if id(order[j]) not in sub and order[j] is not order[i]._parent_node
+                 and (order[j]._child_nodes or order[j].taxon is None)]
+        for j in cands[:1]:
+            add(dict(op="set_parent", t=i, p=j))
     return ops
 
 
@@ -572,6 +616,14 @@ def step(t, env, d):
     if tv:
         fails.append((name("traversals"), tv))
         return fails, True
+    try:
+        second = t._debug_tree_is_valid()
+    except AssertionError as ex:
+        second = False
+    except Exception as ex:  # the self-check itself is not under test
+        second = True
+    if not second:
+        fails.append((name("debug_check"), "Tree._debug_tree_is_valid rejects a tree the monitor accepts"))
     if raised is not None:
         if P.refusal is not None and isinstance(raised, P.refusal) and P.permute is not None:
             # a refusal leaves the tree as it was
@@ -581,7 +633,7 @@ def step(t, env, d):
     leaves_after = [x for x in reach if not x._child_nodes]
     got_leaf = taxa_multiset(leaves_after)
     got_node = taxa_multiset(reach)
-    if not P.nodecheck:
+    if not P.nodecheck or internal_taxa_before:
         pass
     elif got_node != exp_node:
         fails.append((name("node_taxa"), "taxa on the nodes %r, required %r" % (_ms(got_node), _ms(exp_node))))
@@ -638,25 +690,41 @@ def run_history(spec, hist):
     return t, env, fails, broken
 
 
+def apply_quiet(t, env, d):
+    """the state change of step() without the monitors (used to replay the prefix of a history)"""
+    if d.get("upd"):
+        t.encode_bipartitions(suppress_unifurcations=False, collapse_unrooted_basal_bifurcation=False)
+    P = plan(t, env, d)
+    try:
+        with warnings.catch_warnings():
+            warnings.simplefilter("ignore")
+            P.call()
+    except Exception:
+        pass
+
+
 def explore(item):
-    """exhaustive histories from one start tree.  item = (spec, levels) with levels = menu level per depth"""
-    spec, levels, sublevels = item
+    """exhaustive histories from one start tree.  item = (spec, levels, sublevels, first) with levels = menu level per
+    depth; first = index of the first operation in the depth-0 menu (None = all), so that the parent can fan out"""
+    spec, levels, sublevels, first = item
     out = []
     flags = []
+    big = len(S.pre(mk(spec)[0]._seed_node)) >= 4
 
     def rec(prefix, depth):
         t, env = mk(spec)
         for d in prefix:
-            step(t, env, d)
+            apply_quiet(t, env, d)
         ops = menu(t, levels[depth], sublevels[depth])
+        if depth == 0 and first is not None:
+            ops = ops[first:first + 1]
         for d in ops:
             hist = prefix + [d]
             t2, env2 = mk(spec)
-            ok = True
             for dd in prefix:
-                step(t2, env2, dd)
+                apply_quiet(t2, env2, dd)
             fails, broken = step(t2, env2, d)
-            flags.append(len(hist) >= 2 or len(S.pre(t2._seed_node)) >= 4)
+            flags.append(len(hist) >= 2 or big)
             for nm, detail in fails:
                 out.append((nm, hist, detail))
             if not broken and depth + 1 < len(levels):
@@ -664,6 +732,19 @@ def explore(item):
 
     rec([], 0)
     return dict(n=len(flags), nontrivial=flags, fails=out)
+
+
+def fan_out(specs, levels, sublevels=None):
+    sublevels = sublevels or levels
+    items = []
+    for sp in specs:
+        if len(levels) == 1:
+            items.append((sp, levels, sublevels, None))
+        else:
+            k = len(menu(mk(sp)[0], levels[0], sublevels[0]))
+            for i in range(k):
+                items.append((sp, levels, sublevels, i))
+    return items
 
 
 def random_histories(item):
@@ -700,7 +781,7 @@ def _run_scope(ctx, sc, rule, exhaustive, fn, items, reported, keyf):
     import time
     t0 = time.time()
     ctx.scope(sc, rule=rule, exhaustive=exhaustive)
-    res = pmap(fn, items, chunksize=1)
+    res = pmap(fn, items, chunksize=4)
     t1 = time.time()
     for it, r in zip(items, res):
         spec = it[0]
@@ -709,6 +790,12 @@ def _run_scope(ctx, sc, rule, exhaustive, fn, items, reported, keyf):
         for i, nt in enumerate(r["nontrivial"]):
             ctx.case(sc, key="%s#%d" % (kh, i), nontrivial=nt, sample=(k0 if i < 3 else ""))
         for nm, hist, detail in r["fails"]:
+            if nm.endswith(".debug_check"):
+                # second opinion only (DESIGN.md): recorded, never a verdict
+                if reported.get(nm, 0) == 0:
+                    ctx.note("second opinion: %s :: %s :: %s" % (nm, hist_key(spec, hist), detail))
+                reported[nm] = reported.get(nm, 0) + 1
+                continue
             cnt = reported.get(nm, 0)
             reported[nm] = cnt + 1
             if cnt < MAX_REPORT_PER_MONITOR:
@@ -735,40 +822,62 @@ def t2(ctx):
     thorough = ctx.tier == "thorough"
     reported = {}
     R3 = (None, True, False)
-    kf = lambda it: spec_key(it[0])
-    # depth 1, every option value, every target, many start trees (unifurcations, polytomies, missing taxa/lengths)
+    kf = lambda it: spec_key(it[0]) + ("" if it[3] is None else "|first=%d" % it[3])
+    # ---- depth 1: every option value, every target, many start trees (polytomies, unifurcations, missing taxa/lengths)
     N1 = 6 if thorough else 5
     shapes = list(shapes_upto(N1))
     unif = []
-    for s in shapes_upto(4, 2):
-        unif.extend(with_unifurcations(s))
-    st = _starts(shapes, ["dyadic", "none", "onemissing", "zeros", "leafmissing"], R3) \
-        + _starts(unif, ["dyadic", "none"], R3) \
-        + _starts(list(shapes_upto(4, 2)), ["dyadic"], R3, extra=(dict(ns="removed"), dict(notaxon=1)))
-    _run_scope(ctx, "depth1@full-menu", "every operation x every target node/edge/taxon subset x every option value, from every ordered shape with "
-               "<=%d leaves x 5 length patterns x 3 rooting states, shapes <=4 leaves with one unifurcation (root included) x {dyadic, none}, "
-               "and shapes <=4 with a namespace with removed taxa / a taxon-less leaf; non-trivial = start tree with >=4 nodes" % N1,
-               True, explore, [(s, [2], [2]) for s in st], reported, kf)
-    # every history of 2 operations
-    N2 = 4
-    st = _starts(list(shapes_upto(N2)), ["dyadic", "none"] if not thorough else ["dyadic", "none", "onemissing"], (None, True) if not thorough else R3)
-    lv = [1, 1] if not thorough else [1, 2]
-    _run_scope(ctx, "histories<=2", "every sequence of <=2 operations from every ordered shape with <=%d leaves x %s; first operation: every target, "
-               "options {defaults, all flipped}, taxon subsets of size 1 and n-1; second operation: %s; non-trivial = length-2 histories"
-               % (N2, "{dyadic, none} x {undefined, rooted}" if not thorough else "{dyadic, none, onemissing} x 3 rooting states",
-                  "the same menu" if not thorough else "every option value and every subset"),
-               True, explore, [(s, lv, lv) for s in st], reported, kf)
-    # every history of 3 (thorough: 4) operations over the defaults menu
-    N3 = 3 if not thorough else 4
-    st = _starts(list(shapes_upto(N3, 2)), ["dyadic"] if not thorough else ["dyadic", "none"], (None,) if not thorough else (None, True))
-    lv = [0, 0, 0]
-    _run_scope(ctx, "histories<=3", "every sequence of <=3 operations with default options (every target, single-taxon subsets) from every ordered "
-               "shape with 2..%d leaves" % N3, True, explore, [(s, lv, lv) for s in st], reported, kf)
+    for sh in shapes_upto(4, 2):
+        unif.extend(with_unifurcations(sh))
     if thorough:
+        st2 = _starts(shapes, ["dyadic", "none", "onemissing", "zeros", "leafmissing"], R3) + _starts(unif, ["dyadic", "none"], R3)
+        st1 = []
+    else:
+        st2 = _starts(shapes, ["dyadic", "none"], R3)
+        st1 = _starts(shapes, ["onemissing", "zeros", "leafmissing"], (None,)) + _starts(unif, ["dyadic", "none"], (None, True))
+    st2 += _starts(list(shapes_upto(4, 2)), ["dyadic"], R3, extra=(dict(ns="removed"), dict(notaxon=1)))
+    _run_scope(ctx, "depth1@full-menu", "every operation x every target node/edge/taxon subset x every option value, from every ordered shape with "
+               "<=%d leaves x %s x 3 rooting states, and shapes <=4 leaves with a namespace with removed taxa / a taxon-less leaf; "
+               "non-trivial = start tree with >=4 nodes" % (N1, "5 length patterns" if thorough else "{dyadic, none}"),
+               True, explore, fan_out(st2, [2]), reported, kf)
+    if st1:
+        _run_scope(ctx, "depth1@menu1", "every operation x every target x options {defaults, all flipped} x taxon subsets of size 1 and n-1, from "
+                   "every ordered shape with <=%d leaves x {onemissing, zeros, leafmissing} (rooting undefined) and from shapes with 2..4 leaves with "
+                   "one unifurcation (every position, seed included) x {dyadic, none} x {undefined, rooted}" % N1,
+                   True, explore, fan_out(st1, [1]), reported, kf)
+    # ---- every history of 2 operations
+    if thorough:
+        st = _starts(list(shapes_upto(4)), ["dyadic", "none", "onemissing"], R3)
+        _run_scope(ctx, "histories<=2", "every sequence of <=2 operations from every ordered shape with <=4 leaves x {dyadic, none, onemissing} x 3 rooting "
+                   "states; first operation: every target, options {defaults, all flipped}, taxon subsets of size 1 and n-1; second operation: the same "
+                   "menu on the tree reached; non-trivial = length-2 histories", True, explore, fan_out(st, [1, 1]), reported, kf)
+    else:
+        st = _starts(list(shapes_upto(3)), ["dyadic"], (None, True)) + _starts(list(shapes_upto(3)), ["none"], (None,))
+        _run_scope(ctx, "histories<=2@3", "every sequence of <=2 operations from every ordered shape with <=3 leaves x {dyadic x {undefined, rooted}, no lengths x undefined}; "
+                   "both operations: every target, options {defaults, all flipped}, taxon subsets of size 1 and n-1", True, explore,
+                   fan_out(st, [1, 1]), reported, kf)
+        st = _starts(list(shapes_exact(4)), ["dyadic"], (None,)) + _starts(list(shapes_exact(4)), ["none"], (True,))
+        _run_scope(ctx, "histories<=2@4", "every sequence of <=2 operations with default options (every target, single-taxon subsets) from every ordered "
+                   "shape with 4 leaves x {dyadic undefined rooting, no lengths rooted}", True, explore, fan_out(st, [0, 0]), reported, kf)
+    # ---- every history of 3 (thorough: also 4) operations
+    if thorough:
+        st = _starts(list(shapes_upto(3, 2)), ["dyadic", "none"], (None, True))
+        _run_scope(ctx, "histories<=3", "every sequence of <=3 operations with default options (every target, single-taxon subsets) from every ordered "
+                   "shape with 2..3 leaves x {dyadic, none} x {undefined, rooted}", True, explore, fan_out(st, [0, 0, 0]), reported, kf)
+        st = _starts(list(shapes_exact(4)), ["dyadic"], (None,))
+        _run_scope(ctx, "histories<=3@4mini", "every sequence of <=3 operations over the representative menu (one operation per family, default options, "
+                   "every target) from every ordered shape with 4 leaves", True, explore, fan_out(st, [-1, -1, -1]), reported, kf)
         st = _starts(list(shapes_upto(3, 2)), ["dyadic"], (None,))
-        _run_scope(ctx, "histories<=4", "every sequence of <=4 operations with default options from every ordered shape with 2..3 leaves",
-                   True, explore, [(s, [0, 0, 0, 0], [0, 0, 0, 0]) for s in st], reported, kf)
-    # random long histories
+        _run_scope(ctx, "histories<=4@mini", "every sequence of <=4 operations over the representative menu from every ordered shape with 2..3 leaves",
+                   True, explore, fan_out(st, [-1, -1, -1, -1]), reported, kf)
+    else:
+        st = _starts(list(shapes_upto(3, 2)), ["dyadic"], (None,)) + _starts(list(shapes_exact(3)), ["none"], (True,))
+        _run_scope(ctx, "histories<=3@mini", "every sequence of <=3 operations over the representative menu (one operation per family: reseed_at, "
+                   "reroot_at_edge, to_outgroup_position, reroot_at_midpoint, prune_taxa, filter_leaf_nodes, prune_subtree, remove_child, Edge.collapse, "
+                   "collapse_clade, collapse_basal_bifurcation, resolve_polytomies, suppress_unifurcations, encode_bipartitions, add_child, "
+                   "parent_node assignment, shuffle_taxa, ladderize; default options, every target) from every ordered shape with 2..3 leaves",
+                   True, explore, fan_out(st, [-1, -1, -1]), reported, kf)
+    # ---- random long histories
     rng = rng_for(ctx, 3)
     items = []
     for i in range(160 if not thorough else 3000):
